@@ -218,7 +218,8 @@ struct Model {
 		if (!t) { out = def; return 0; }
 		if (!t->is_num()) return -1;
 		if (t->d < 0.001) return -1;
-		out = (uint64_t)(t->d * 1000000000.0);
+		double ns = t->d * 1000000000.0;
+		out = (ns >= 1.8e19 || ns != ns) ? UINT64_MAX : (uint64_t)ns;
 		return 0;
 	}
 
